@@ -14,6 +14,12 @@
 //!   permpep / permprot DB FEATS nperm { index }   -> passingA n { qA } passingB n { qB }   (B = permuted supply order,
 //!                                                     reported back in the original PSM order)
 //!   permprec n {…} nperm { index }                -> passingA n { qA } passingB n { qB }
+//!   bigpick seed n mix gd pm  -> npsm { passing_pep passing_prot { q_pep }*npsm { q_prot }*npsm } x 3 supply orders
+//!       a LARGE table (n entities / target-decoy pairs) that both sides generate from `seed` with the integer
+//!       formulas of `big_table` (splitmix64; scores are integers / 32768, exact in f32), so the request stays short
+//!       and the driver knows every PSM. Orders: as generated, best-first, shuffled; each order runs in a rayon pool
+//!       of a different size (pm rotates 16/4/1). q-values are reported in generation order.
+//!   bigprec seed n            -> n { passing { q }*n } x 3 insertion orders
 use super::Info;
 use crate::proto::{Case, Out, Rng, Tier, Toks};
 use fnv::FnvHashMap;
@@ -26,7 +32,7 @@ use sage_core::peptide::Peptide;
 use sage_core::scoring::Feature;
 use std::sync::Arc;
 
-pub const OPS: &[&str] = &["pickpep", "pickprot", "pickprec", "permpep", "permprot", "permprec"];
+pub const OPS: &[&str] = &["pickpep", "pickprot", "pickprec", "permpep", "permprot", "permprec", "bigpick", "bigprec"];
 pub const INFO: Info = Info {
     rule: "databases: (a) built by Parameters::build from random tiny FASTAs (2-6 proteins assembled from a pool of \
            tryptic peptides so that peptides are shared between proteins; internal decoys, or FASTA-supplied rev_ \
@@ -41,8 +47,11 @@ pub const INFO: Info = Info {
            0-80 peaks (big: up to 800), Combined/Charged ids, f64 scores that collapse to f32 ties, directed \
            (d+1)/t = 0.05 with t in 19..61. NaN-PEP inputs (single decoy / single target / all scores equal: every q must be 1.0). Directed tie blocks at all three levels (several targets and decoys of different keys at one score). \
            Every pick* case, ties included, is followed by perm* cases (reversed and random supply order, \
-           implementation against itself). non-trivial = at least 2 \
-           entities with at least one target and one decoy; distinct by request",
+           implementation against itself). LARGE tables (bigpick: 20 000 entities with 18 000 target winners in quick; 22 000-50 000 entities / pairs, FASTA-style \
+           and internal decoys in thorough; bigprec: 17 000-100 000 MS1 peaks), generated from a seed by integer formulas \
+           on both sides, each run in three supply orders (as generated, best-first, shuffled) and three rayon pool \
+           sizes (16/4/1), implementation against itself + range / same-entity / antitone / count in O(n log n). \
+           non-trivial = at least 2 entities with at least one target and one decoy; distinct by request",
     serial: false,
 };
 
@@ -397,7 +406,7 @@ thread_local! {
 pub fn exec(op: &str, t: &mut Toks) -> Option<String> {
     let rest: Vec<&str> = std::iter::from_fn(|| t.tok()).collect();
     let line = rest.join(" ");
-    if rest.len() < 6000 {
+    if rest.len() < 6000 && !op.starts_with("big") {
         SMALL_POOL.with(|p| p.install(|| exec_inner(op, &mut Toks::new(&line))))
     } else {
         exec_inner(op, &mut Toks::new(&line))
@@ -407,6 +416,8 @@ pub fn exec(op: &str, t: &mut Toks) -> Option<String> {
 fn exec_inner(op: &str, t: &mut Toks) -> Option<String> {
     let mut o = Out::new();
     match op {
+        "bigpick" => return exec_bigpick(t),
+        "bigprec" => return exec_bigprec(t),
         "pickpep" | "pickprot" | "permpep" | "permprot" => {
             let level = if op.ends_with("pep") { Level::Peptide } else { Level::Protein };
             let spec = get_db(t)?;
@@ -463,6 +474,198 @@ fn exec_inner(op: &str, t: &mut Toks) -> Option<String> {
             put_result(&mut o, pb, &qb);
         }
         _ => return None,
+    }
+    Some(o.finish())
+}
+
+
+// ------------------------------------------------------------------------------------------ large tables
+
+fn mix64(mut z: u64) -> u64 {
+    z = (z ^ (z >> 30)).wrapping_mul(0xBF58_476D_1CE4_E5B9);
+    z = (z ^ (z >> 27)).wrapping_mul(0x94D0_49BB_1331_11EB);
+    z ^ (z >> 31)
+}
+
+/// hash of (seed, index, salt): the ONLY source of the large tables; mirrored in lean/SageModel/Drv/C13.lean
+fn hsh(seed: u64, i: u64, salt: u64) -> u64 {
+    mix64(
+        seed.wrapping_add((i + 1).wrapping_mul(0x9E37_79B9_7F4A_7C15))
+            .wrapping_add(salt.wrapping_mul(0xD1B5_4A32_D192_ED03)),
+    )
+}
+
+/// sum of the four 16-bit chunks: bell-shaped in 0..=262140
+fn bell(x: u64) -> i64 {
+    ((x & 0xFFFF) + ((x >> 16) & 0xFFFF) + ((x >> 32) & 0xFFFF) + ((x >> 48) & 0xFFFF)) as i64
+}
+
+const CONF_SHIFT: i64 = 6 * 32768;
+
+fn big_score(m: i64) -> f32 {
+    // |m - 131070| < 2^24: the cast and the division by a power of two are exact
+    (m - 131070) as f32 / 32768.0
+}
+
+/// unique sequences without G / L inside, so that no reversed decoy equals a target
+fn big_seq(n: usize) -> Vec<u8> {
+    const AA: &[u8] = b"ACDEFHIMNPQSTVWY";
+    let mut s = vec![b'A'];
+    let mut k = n;
+    for _ in 0..4 {
+        s.push(AA[k % 16]);
+        k /= 16;
+    }
+    s.extend_from_slice(b"GLK");
+    s
+}
+
+struct BigPsm {
+    pep: usize,
+    m: i64,
+}
+
+/// (peptide table, PSMs in generation order)
+fn big_table(seed: u64, n: usize, mixk: u64, gd: bool) -> (DbSpec, Vec<BigPsm>) {
+    let conf_cut = if mixk == 0 { 4 } else { 7 };
+    let null_cut = if mixk == 0 { 7 } else { 9 };
+    let group = |i: usize| if i > 0 && hsh(seed, i as u64, 3) & 3 == 0 { i - 1 } else { i };
+    let mut peps = Vec::new();
+    let mut psms = Vec::new();
+    let mut extra = |psms: &mut Vec<BigPsm>, pep: usize, i: usize, m: i64| {
+        if hsh(seed, i as u64, 4) & 7 == 0 {
+            psms.push(BigPsm { pep, m: m - 1 - (hsh(seed, i as u64, 5) % 40000) as i64 });
+        }
+    };
+    for i in 0..n {
+        let c = hsh(seed, i as u64, 1) % 10;
+        let seq = big_seq(i);
+        if !gd {
+            // FASTA-style decoys: every entity its own key
+            let decoy = c >= null_cut;
+            let m = bell(hsh(seed, i as u64, 2)) + if c < conf_cut { CONF_SHIFT } else { 0 };
+            let name = format!("{}Q{}", if decoy { "rev_" } else { "" }, group(i));
+            peps.push(PepSpec { decoy, seq, mods: vec![], nterm: None, cterm: None, prots: vec![name] });
+            psms.push(BigPsm { pep: i, m });
+            extra(&mut psms, i, i, m);
+        } else {
+            // internal decoys: pair i = target 2i and its reversed decoy 2i+1 under one key
+            let name = format!("Q{}", group(i));
+            let n1 = seq.len() - 1;
+            let mut rs = seq.clone();
+            rs[1..n1].reverse();
+            peps.push(PepSpec { decoy: false, seq, mods: vec![], nterm: None, cterm: None, prots: vec![name.clone()] });
+            peps.push(PepSpec { decoy: true, seq: rs, mods: vec![], nterm: None, cterm: None, prots: vec![name] });
+            let conf = c < conf_cut + 2;
+            if hsh(seed, i as u64, 7) % 10 != 0 {
+                let m = bell(hsh(seed, i as u64, 2)) + if conf { CONF_SHIFT } else { 0 };
+                psms.push(BigPsm { pep: 2 * i, m });
+                extra(&mut psms, 2 * i, i, m);
+            }
+            if hsh(seed, i as u64, 6) % 10 < 6 {
+                psms.push(BigPsm { pep: 2 * i + 1, m: bell(hsh(seed, i as u64, 8)) });
+            }
+        }
+    }
+    (DbSpec { gd, tag: "rev_".into(), peps }, psms)
+}
+
+fn big_orders(seed: u64, ms: &[i64]) -> [Vec<usize>; 3] {
+    let n = ms.len();
+    let id: Vec<usize> = (0..n).collect();
+    let mut best: Vec<usize> = id.clone();
+    best.sort_by(|&a, &b| ms[b].cmp(&ms[a]));
+    let mut sh = id.clone();
+    Rng::new(seed ^ 0xABCD_EF01).shuffle(&mut sh);
+    [id, best, sh]
+}
+
+fn in_pool<R: Send>(threads: usize, f: impl FnOnce() -> R + Send) -> R {
+    if threads >= 16 {
+        f()
+    } else {
+        rayon::ThreadPoolBuilder::new().num_threads(threads).build().expect("pool").install(f)
+    }
+}
+
+fn exec_bigpick(t: &mut Toks) -> Option<String> {
+    let seed = t.tok()?.parse::<u64>().ok()?;
+    let n = t.usize()?;
+    let mixk = t.usize()? as u64;
+    let gd = t.bool()?;
+    let pm = t.usize()?;
+    if !t.done() || n > 70000 {
+        return None;
+    }
+    let (spec, psms) = big_table(seed, n, mixk, gd);
+    let db = build_db(&spec);
+    let ms: Vec<i64> = psms.iter().map(|p| p.m).collect();
+    let orders = big_orders(seed, &ms);
+    let pools = [16usize, 4, 1];
+    let mut o = Out::new();
+    o.n(psms.len());
+    for (k, ord) in orders.iter().enumerate() {
+        let fs: Vec<(usize, f32)> = ord.iter().map(|&i| (psms[i].pep, big_score(psms[i].m))).collect();
+        let mut feats = features(&fs);
+        let threads = pools[(k + pm) % 3];
+        let (pp, pq) = in_pool(threads, || {
+            let a = picked_peptide(&db, &mut feats);
+            let b = picked_protein(&db, &mut feats);
+            (a, b)
+        });
+        let mut qpep = vec![0f32; psms.len()];
+        let mut qprot = vec![0f32; psms.len()];
+        for (pos, &i) in ord.iter().enumerate() {
+            qpep[i] = feats[pos].peptide_q;
+            qprot[i] = feats[pos].protein_q;
+        }
+        o.n(pp).n(pq);
+        for q in qpep {
+            o.f32(q);
+        }
+        for q in qprot {
+            o.f32(q);
+        }
+    }
+    Some(o.finish())
+}
+
+fn big_peaks(seed: u64, n: usize) -> Vec<PeakSpec> {
+    (0..n)
+        .map(|i| {
+            let h = hsh(seed, i as u64, 1);
+            let charged = h & 1 == 1;
+            let decoy = hsh(seed, i as u64, 2) % 10 < 3;
+            let m = bell(hsh(seed, i as u64, 3)) + if decoy { 0 } else { 40000 };
+            PeakSpec {
+                charged,
+                ix: i as u32,
+                charge: if charged { 1 + ((h >> 1) % 4) as u8 } else { 0 },
+                decoy,
+                // exact in f64 and in f32 (m < 2^19)
+                score: m as f64 / 262144.0,
+            }
+        })
+        .collect()
+}
+
+fn exec_bigprec(t: &mut Toks) -> Option<String> {
+    let seed = t.tok()?.parse::<u64>().ok()?;
+    let n = t.usize()?;
+    if !t.done() || n > 200000 {
+        return None;
+    }
+    let v = big_peaks(seed, n);
+    let ms: Vec<i64> = v.iter().map(|p| (p.score * 262144.0) as i64).collect();
+    let orders = big_orders(seed, &ms);
+    let mut o = Out::new();
+    o.n(n);
+    for ord in orders.iter() {
+        let (passing, qs, _) = run_prec(&v, ord);
+        o.n(passing);
+        for q in qs {
+            o.f32(q);
+        }
     }
     Some(o.finish())
 }
@@ -1031,6 +1234,38 @@ pub fn gen(rng: &mut Rng, tier: Tier, emit: &mut dyn FnMut(Case)) {
             _ => tg.iter().chain(dc.iter()).map(|&i| (i, 2.0)).collect(),
         };
         emit_pick(rng, emit, &db, &feats, &["nan-pep"], 1);
+    }
+
+    // (k) LARGE tables (>= 16384 winners of one class), the same PSM set in three supply orders and three pool
+    //     sizes: implementation against itself + the cheap invariants (the Lean model is not run at this size)
+    {
+        let s0 = rng.next() % 1_000_000;
+        let big: Vec<(usize, u64, bool, usize)> = if quick {
+            vec![(20000, 1, false, 0)]
+        } else {
+            vec![
+                (50000, 0, false, 0),
+                (22000, 1, false, 1),
+                (40000, 1, false, 2),
+                (24000, 0, true, 0),
+                (36000, 1, true, 1),
+                (30000, 0, false, 2),
+            ]
+        };
+        for (k, (n, mixk, gd, pm)) in big.into_iter().enumerate() {
+            let mut o = Out::new();
+            o.raw("bigpick").n(s0 + k as u64).n(n).n(mixk).b(gd).n(pm);
+            emit(Case::new(o.finish()).tag("large-table").tag("permutation").tag_if(gd, "internal-decoys").tag_if(!gd, "fasta-decoys"));
+        }
+        for (k, n) in (if quick { vec![20000usize] } else { vec![17000, 40000, 100000] }).into_iter().enumerate() {
+            let mut o = Out::new();
+            o.raw("bigprec").n(s0 + 100 + k as u64).n(n);
+            emit(Case::new(o.finish()).tag("large-table").tag("permutation"));
+        }
+        // a small one through the same code path (control)
+        let mut o = Out::new();
+        o.raw("bigpick").n(s0 + 50).n(600).n(0).b(false).n(0);
+        emit(Case::new(o.finish()).tag("large-table-control"));
     }
 
     // precursor level
